@@ -462,9 +462,11 @@ def hostile_rng(g):
             setattr(npr, k, f)
 
 
-def long_or(rng, i, n, longs=(32769, 50000, 70001, 131075), every=16, phase=7):
+def long_or(rng, i, n, longs=(32769, 50000, 70001, 131075), every=16, phase=7, huge=True):
     """record-length helper: every `every`-th case of a workload replaces the drawn length by one beyond the usual internal
     block sizes (2**15, 2**16, 2**17; not multiples of them), so that chunked / narrow-index code paths are reached."""
+    if huge and LONG_SCALE[0] > 1 and i % 2048 == 1029:
+        return 2 ** 22 + 1            # thorough tier only: an odd record of four million samples, beyond any plausible internal switch of algorithm
     every = every * LONG_SCALE[0]
     if i % every == phase:
         return int(longs[int(rng.integers(len(longs)))])
